@@ -584,7 +584,7 @@ impl Ctx {
                 });
             }
             // monitor
-            let limit = self.case_timeout() * 4; // fixed cases are whole statistical cells
+            let limit = self.case_timeout() * 2; // fixed cases are whole statistical cells (incl. a 4x confirmation)
             while live.load(Ordering::SeqCst) > 0 {
                 std::thread::sleep(std::time::Duration::from_millis(200));
                 for sl in slots.iter() {
@@ -780,7 +780,7 @@ impl Ctx {
                     live.fetch_sub(1, Ordering::SeqCst);
                 });
             }
-            let limit = self.case_timeout() * 4; // an index stands for a whole enumeration slice
+            let limit = self.case_timeout(); // an index stands for one enumeration slice (seconds at most)
             while live.load(Ordering::SeqCst) > 0 {
                 std::thread::sleep(std::time::Duration::from_millis(200));
                 for sl in slots.iter() {
